@@ -187,20 +187,32 @@ class Layout:
                     out.append(f"!{self.docmark} {d}")
                 out.append("")
                 continue
-            style = self.docstyle if self.docstyle in ("after", "inline", "pre") else "after"
+            style = self.docstyle if self.docstyle in ("after", "inline", "pre", "alt") else "after"
             if self.docstyle == "mixed":
-                style = rng.choice(["after", "inline", "pre"])
+                style = rng.choice(["after", "inline", "pre", "alt"])
             docs = s.docs
             pre_lines, post_lines, inline = [], [], None
             cchar = "!" if self.plain else None
+
+            def c1():
+                """a comment line may start with C, c or * as well as with !: `C! text` is the doc comment `!! text`"""
+                if self.plain or rng.random() < 0.6:
+                    return "!"
+                self.features.add("doc_comment_on_old_style_comment_line")
+                return rng.choice(["C", "c", "*"])
+
             if docs:
                 if style == "after":
-                    post_lines = [f"!{self.docmark} {d}" if d else f"!{self.docmark}" for d in docs]
+                    post_lines = [f"{c1()}{self.docmark} {d}" if d else f"{c1()}{self.docmark}" for d in docs]
                 elif style == "inline":
                     inline = f" !{self.docmark} {docs[0]}"
-                    post_lines = [f"!{self.docmark} {d}" if d else f"!{self.docmark}" for d in docs[1:]]
+                    post_lines = [f"{c1()}{self.docmark} {d}" if d else f"{c1()}{self.docmark}" for d in docs[1:]]
+                elif style == "alt":
+                    # block form: the alternative marker on the first line, plain comment lines continue it, a blank line closes it
+                    post_lines = [f"{c1()}{self.docmark_alt} {docs[0]}"] + [f"{c1()} {d}" if d else c1() for d in docs[1:]] + [""]
+                    self.features.add("fixed_alt_doc_block")
                 else:
-                    pre_lines = [f"!{self.predocmark} {d}" if d else f"!{self.predocmark}" for d in docs]
+                    pre_lines = [f"{c1()}{self.predocmark} {d}" if d else f"{c1()}{self.predocmark}" for d in docs]
             if not self.plain and rng.random() < self.comment_p:
                 c = rng.choice(["C", "c", "*", "!"])
                 out.append(c + " " + rng.choice(["zn1", "zn2 plain", "zn7 fixed comment"]))
@@ -219,7 +231,11 @@ class Layout:
             lines = []
             for j, pc in enumerate(pieces):
                 if j == 0:
-                    lines.append(f"{label:<5} " + pc)
+                    # column 6 of an initial line is blank or zero
+                    zero = not self.plain and rng.random() < 0.2
+                    if zero:
+                        self.features.add("zero_in_column_6" + ("_with_label" if label else ""))
+                    lines.append(f"{label:<5}" + ("0" if zero else " ") + pc)
                 else:
                     cc = rng.choice(contchars) if not self.plain else "&"
                     lines.append("     " + cc + pc)
@@ -276,7 +292,10 @@ def assign_labels(stmts, rng, p=0.15):
     """Give some executable statements a numeric label (same labels for every layout of the file)."""
     used = set()
     for s in stmts:
-        if s.kind == "exec" and rng.random() < p:
+        if s.label:
+            used.add(s.label)
+    for s in stmts:
+        if s.kind == "exec" and not s.label and rng.random() < p:
             while True:
                 lab = str(rng.choice([rng.randint(1, 9), rng.randint(10, 999), rng.randint(1000, 99999)]))
                 if lab not in used:
